@@ -323,6 +323,7 @@ def run(ctx):
     ctx.do(rule_index_steps_cover_the_grammar)
     ctx.do(rule_definite_init)
     ctx.do(rule_groups_become_grouping_nodes)
+    ctx.do(rule_binary_constant_not_empty)
     ctx.do(rule_list_constant_keeps_every_member)
     ctx.do(rule_escape_order)
     ctx.do(rule_step_quoting)
@@ -1361,3 +1362,29 @@ def rule_list_constant_keeps_every_member(ctx, R="C10.operator-table"):
               "ListConstant does not keep every member it is given (%s): a set literal prints with fewer members than it was "
               "written / built with" % why, file=cls.module.relpath, line=init.node.lineno, function="ListConstant.__init__",
               expected="self.value = [<constant of x> for x in values]", found=short(init.node, 200))
+
+
+def rule_binary_constant_not_empty(ctx, R="C10.binary-literal-form"):
+    """BinaryLiteral of both grammars is b' followed by AT LEAST ONE base64 group; the empty string is valid base64 (it decodes to
+    no bytes), so the strict decoder does not refuse it and BinaryConstant('') prints b'' -- text neither grammar parses.
+    Every normal exit of the constructor passes a raising test of the value's emptiness (CFG)."""
+    run = ctx.run
+    cls = ctx.prog.cls(PAT + "::BinaryConstant")
+    init = cls.methods.get("__init__")
+    if init is None or len(init.params) < 2:
+        raise AnalysisError("anchor missing: BinaryConstant.__init__(self, value, ...)")
+    v = init.params[1]
+    g = cfg_of(init)
+
+    def refuses_empty(nd):
+        if not (nd.kind == "test" and isinstance(nd.ast, ast.If) and any(isinstance(s_, ast.Raise) for s_ in nd.ast.body)):
+            return False
+        t = norm(nd.ast.test)
+        return t in ("not %s" % v, "%s == ''" % v, "len(%s) == 0" % v, "not len(%s)" % v, "%s in ('', b'')" % v, "len(%s) < 1" % v) \
+            or ("not %s or" % v) in t or ("or not %s" % v) in t
+    ok_, bypass = g.must_pass(refuses_empty, labels_skip=("exc", "raise"))
+    run.check(ok_, R, key(cls.module.relpath, "BinaryConstant.__init__", "empty-value-refused"),
+              "BinaryConstant accepts the empty string (valid base64 for no bytes) and prints b'' -- a binary literal of the "
+              "pattern grammar has at least one base64 group, so the printed pattern does not parse", file=cls.module.relpath,
+              line=init.node.lineno, function="BinaryConstant.__init__", expected="if not value: raise ValueError(...)",
+              found="a path to the normal exit without an emptiness test", path=g.describe_path(bypass) if bypass else None)
